@@ -105,3 +105,74 @@ func c16ThroughLink(cwd, src string) bool {
 	// the argument itself (before cleaning) may name the link with trailing slashes
 	return envLstatKind(c16TrimSlashes(src)) == envLink
 }
+
+// HarnessC16Repack: packing a directory again after its rule file changed gives what a directory
+// with the same files and the new rule file gives (no stale per-path state).
+func HarnessC16Repack() {
+	packWorld()
+	r1 := c16Rules[verif.Choose("rules1", len(c16Rules))]
+	r2 := c16Rules[verif.Choose("rules2", len(c16Rules))]
+	for _, root := range []string{"/w/s", "/w/h"} {
+		if root == "/w/h" {
+			envMkdir(root, 0755, 200)
+		}
+		envWriteFile(root+"/q", 0644, 1000, "q")
+		envWriteFile(root+"/a", 0644, 1000, "a")
+		envMkdir(root+"/b", 0755, 1000)
+		envWriteFile(root+"/b/q", 0644, 1000, "bq")
+	}
+	envWriteFile("/w/s/.terraformignore", 0644, 1000, r1)
+	envWriteFile("/w/h/.terraformignore", 0644, 1000, r2)
+	p := &Packer{applyTerraformIgnore: true}
+	envBaseline()
+	_, err := p.Pack("/w/s", envWriter())
+	verif.Assume(err == nil)
+	envTarResetOutput()
+	_, err = p.Pack("/w/h", envWriter())
+	verif.Assume(err == nil)
+	want := c16Key(envTarWritten())
+	envTarResetOutput()
+	envRewriteFile("/w/s/.terraformignore", r2)
+	verif.Reach("rule-file-edited")
+	_, err = p.Pack("/w/s", envWriter())
+	verif.Assert("C16-repack-after-edit-succeeds", err == nil)
+	if err == nil {
+		verif.Assert("C16-same-entries-whatever-happened-before", c16Key(envTarWritten()) == want)
+	}
+}
+
+// HarnessC16Overlap: two Pack calls on one Packer that overlap. The executor is sequential, so
+// the overlap is emulated at the granularity of output writes: the second call runs to completion
+// at the moment the first call first writes to its output. What the first call produces must not
+// depend on that (schedules finer than this are outside the technique).
+func HarnessC16Overlap() {
+	packWorld()
+	r1 := c16Rules[verif.Choose("rules1", len(c16Rules))]
+	r2 := c16Rules[verif.Choose("rules2", len(c16Rules))]
+	for _, root := range []string{"/w/s", "/w/h"} {
+		if root == "/w/h" {
+			envMkdir(root, 0755, 200)
+		}
+		envWriteFile(root+"/a", 0644, 1000, "a")
+		envMkdir(root+"/b", 0755, 1000)
+		envWriteFile(root+"/b/q", 0644, 1000, "bq")
+		envWriteFile(root+"/q", 0644, 1000, "q")
+	}
+	envWriteFile("/w/s/.terraformignore", 0644, 1000, r1)
+	envWriteFile("/w/h/.terraformignore", 0644, 1000, r2)
+	p := &Packer{applyTerraformIgnore: true, dereference: verif.Bool("deref")}
+	envBaseline()
+	_, err := p.Pack("/w/s", envWriter())
+	verif.Assume(err == nil)
+	want := c16Key(envTarWritten())
+	envTarResetOutput()
+	envOnFirstWrite(func() {
+		verif.Reach("overlapping-call")
+		p.Pack("/w/h", envWriter())
+	})
+	_, err = p.Pack("/w/s", envWriter())
+	verif.Assert("C16-overlapped-pack-succeeds", err == nil)
+	if err == nil {
+		verif.Assert("C16-same-entries-whatever-runs-at-the-same-time", c16Key(envTarWritten()) == want)
+	}
+}
